@@ -118,14 +118,83 @@ Definition ok_cons (st : sys) (e : event) : bool :=
   | EDisconnect c => negb (is_blocked (snd st) c)
   | _ => true
   end.
-Inductive reach_cons : sys -> Prop :=
-| rc_init : reach_cons (init_server None, init_blocking)
-| rc_step : forall st e, reach_cons st -> ok_cons st e = true -> reach_cons (step st e).
-
 (** the list stored at a key (nothing for a missing key or another type) *)
 Definition list_at (s : server) (db : Z) (k : bytes) : list bytes :=
   match get_val (get_db s db) k with Some (VList l) => l | _ => [] end.
 Definition occ (x : bytes) (l : list bytes) : Z := len (filter (fun y => beq y x) l).
+
+(** an element of a list: (database, key, element); multisets of them as lists with a count *)
+Definition elem := (Z * bytes * bytes)%type.
+Definition elem_eqb (a b : elem) : bool :=
+  match a, b with (d, k, x), (d', k', x') => (d =? d') && beq k k' && beq x x' end.
+Definition ecount (e : elem) (l : list elem) : Z := len (filter (elem_eqb e) l).
+
+(** what a request pushed / got back, read off the request and ITS REPLY: an LPUSH/RPUSH
+    answered with an integer pushed its arguments; an LPOP/RPOP answered with a bulk, a
+    BLPOP/BRPOP answered with [key, element], got that element *)
+Definition pushed_of (dbi : Z) (parts : list frame) (rep : frame) : list elem :=
+  match parts, rep with
+  | FBulk nm :: FBulk k :: els, FInt _ =>
+      if is_push_name (upper nm) then map (fun e => (dbi, k, e)) (bulk_args els) else []
+  | _, _ => []
+  end.
+Definition returned_of (dbi : Z) (parts : list frame) (rep : frame) : list elem :=
+  match parts with
+  | FBulk nm :: rest =>
+      if beq (upper nm) (bs "LPOP") || beq (upper nm) (bs "RPOP") then
+        match rest, rep with FBulk k :: _, FBulk v => [(dbi, k, v)] | _, _ => [] end
+      else if is_bpop_name (upper nm) then
+        match rep with FArray [FBulk k'; FBulk v] => [(dbi, k', v)] | _ => [] end
+      else []
+  | _ => []
+  end.
+(** the queued commands of an EXEC against the slots of its reply *)
+Fixpoint zip_effects (f : list frame -> frame -> list elem) (q : list (list frame)) (reps : list frame) : list elem :=
+  match q, reps with
+  | parts :: q', r :: reps' => f parts r ++ zip_effects f q' reps'
+  | _, _ => []
+  end.
+Definition frame_effect (f : Z -> list frame -> frame -> list elem) (s : server) (c : Z) (req rep : frame) : list elem :=
+  match zlookup c (s_conns s), req with
+  | Some cn, FArray (FBulk nm :: rest) =>
+      if c_intx cn then
+        if beq (upper nm) (bs "EXEC") then
+          match rep with FArray reps => zip_effects (f (c_db cn)) (c_queue cn) reps | _ => [] end
+        else []                                       (* queued, or transaction control *)
+      else f (c_db cn) (FBulk nm :: rest) rep
+  | _, _ => []
+  end.
+(** the reply the model gives to a request (NoResponse: none) *)
+Definition reply_at (st : sys) (e : event) : frame :=
+  match e with
+  | EFrame now c f oms => fst (fst (bprocess_frame now (fst st) (snd st) c f None oms))
+  | _ => FNoResponse
+  end.
+(** what a phase of the event loop appended to the write buffers, oldest first *)
+Definition new_out (b b' : blocking) : list (Z * frame) :=
+  rev (firstn (length (b_out b') - length (b_out b)) (b_out b')).
+(** a wake-up delivery [key, element] to a connection Blocked in database db returns (db, key, element) *)
+Definition async_returns (b : blocking) (new : list (Z * frame)) : list elem :=
+  flat_map (fun cf => match snd cf, zlookup (fst cf) (b_blk b) with
+                      | FArray [FBulk k; FBulk v], Some st => [(bl_db st, k, v)]
+                      | _, _ => []
+                      end) new.
+Definition pushed_in (st : sys) (e : event) : list elem :=
+  match e with
+  | EFrame now c f oms => frame_effect pushed_of (fst st) c f (reply_at st e)
+  | _ => []
+  end.
+Definition returned_in (st : sys) (e : event) : list elem :=
+  match e with
+  | EFrame now c f oms => frame_effect returned_of (fst st) c f (reply_at st e)
+  | EWakeups => async_returns (snd st) (new_out (snd st) (snd (step st e)))
+  | _ => []
+  end.
+(** reachable states with the multisets of everything pushed and everything returned so far *)
+Inductive reach_g : sys -> list elem -> list elem -> Prop :=
+| rg_init : reach_g (init_server None, init_blocking) [] []
+| rg_step : forall st P R e, reach_g st P R -> ok_cons st e = true ->
+    reach_g (step st e) (P ++ pushed_in st e) (R ++ returned_in st e).
 
 (** ---- witness histories of the known classes (evaluated in Props/C13.v) ---- *)
 Definition cmd (l : list bytes) : frame := FArray (map FBulk l).
